@@ -353,7 +353,7 @@ class C19(H.Check):
                 v = e.choose(3)
                 vl_file = ['none', 'zod', None][v]
                 if vl_file is None:
-                    vl_file = sym.sym_str('vf', 3, 'abcdefghijklmnopqrstuvwxyz')
+                    vl_file = sym.sym_str('vf', 3, 'abcdefghijklmnopqrstuvwxyzZODNE ')
                     e.assume(z_not(V.str_eq(vl_file, Str('zod'))))
                 fs['validationLibrary'] = vl_file
             if file_vb:
@@ -371,7 +371,7 @@ class C19(H.Check):
                 v = e.choose(3)
                 vl_flag = ['none', 'zod', None][v]
                 if vl_flag is None:
-                    vl_flag = sym.sym_str('vg', 4, 'abcdefghijklmnopqrstuvwxyz')
+                    vl_flag = sym.sym_str('vg', 4, 'abcdefghijklmnopqrstuvwxyzZODNE ')
                     e.assume(z_not(V.str_eq(vl_flag, Str('none'))))
 
             def tgdoc():
@@ -479,7 +479,7 @@ class C19(H.Check):
             if v == 0:
                 args['validation'] = ('none', 'zod')[e.choose(2)]
             elif v == 1:    # unsupported validation library
-                vl = sym.sym_str('vl', 3, 'abcdefghijklmnopqrstuvwxyz')
+                vl = sym.sym_str('vl', 3, 'abcdefghijklmnopqrstuvwxyzZODNE ')
                 e.assume(z_not(V.str_eq(vl, Str('zod'))))
                 args['validation'] = vl
                 expect_reject = 'validation'
@@ -491,7 +491,7 @@ class C19(H.Check):
                 args['conf'] = './byfile/tauri.conf.json'
                 expect_reject = 'project-path'
             elif v == 4:    # custom (non-tauri) file with unsupported validation
-                vl = sym.sym_str('vl', 4, 'abcdefghijklmnopqrstuvwxyz')
+                vl = sym.sym_str('vl', 4, 'abcdefghijklmnopqrstuvwxyzZODNE ')
                 e.assume(z_not(V.str_eq(vl, Str('none'))))
                 args['validation'] = vl
                 args['conf'] = 'typegen.json'
